@@ -215,4 +215,12 @@ def check(ctx: Ctx) -> str:
 
     lstrip_rules(ctx, "R7")
     end_rule_siblings(ctx, "R8")
+    # ... and because both forms see the same lines: every line-oriented rule (trim_blocks'
+    # `\n?`, lstrip_blocks' search for the last "\n", the line-statement `^` / `(\n|$)`) works
+    # on a source whose \r\n / \r / \n breaks were all normalised to "\n"
+    from ..lexrules import newline_rules
+    from ..lexrules import whitespace_notion_rule
+
+    newline_rules(ctx, "R9")
+    whitespace_notion_rule(ctx, "R10")
     return __doc__ or ""
